@@ -6,6 +6,7 @@
   where goroutines, timers, listening addresses and the allocator are observed after Close).
 -/
 import Model.CoreClose
+import Model.Proto.ReqClose
 import Model.Proto.CommonLemmas
 import Model.Proto.Pair
 import Model.Proto.Push
@@ -432,5 +433,27 @@ example : NoLeak { init with pipes := [{ k := 1, dialer := none, added := true, 
   intro k hk
   simp only [List.mem_cons, List.not_mem_nil, or_false] at hk
   rcases hk with rfl | rfl | rfl <;> simp
+
+/-- REQ: in every reachable state of an open socket — any number of contexts, Sends waiting for a pipe, Recvs waiting
+    for replies, retries and deadlines pending — Close leaves no Send and no Recv parked and marks the socket closed.
+    (From the invariant `Req.K`, proved over all histories in Model/Proto/ReqClose.lean: every parked call belongs to
+    an open context, at most one Recv is parked per context and it waits for a real request.) -/
+theorem req_close_wakes_all (s : Req.State) (hs : Req.Reach s) (hopen : s.closed = false) (now : Nat) :
+    ∀ r ∈ Req.core s now ["close"], r.1.closed = true ∧ r.1.parkedSend = [] ∧ r.1.parkedRecv = [] :=
+  Req.close_wakes_all s hs hopen now
+
+/-- REQ: closing a context wakes exactly what is parked on it: afterwards no call is parked on that context -/
+theorem req_closectx_wakes_its_waiters (s : Req.State) (hs : Req.Reach s) (now : Nat) (id : String) (c : Req.Ctx)
+    (hc : Req.getCtx s (Proto.natOf id) = some c) (hopen : c.closed = false) :
+    ∀ r ∈ Req.core s now ["closectx", id], (∀ q ∈ r.1.parkedSend, q.ctx ≠ c.id) ∧ (∀ q ∈ r.1.parkedRecv, q.ctx ≠ c.id) :=
+  Req.closectx_wakes_its_waiters s hs now id c hc hopen
+
+/-- … and in every reachable REQ state every parked call belongs to an open context (none outlives its context) -/
+theorem req_parked_calls_have_open_contexts (s : Req.State) (hs : Req.Reach s) :
+    (∀ p ∈ s.parkedSend, ∃ x ∈ s.ctxs, x.id = p.ctx ∧ x.closed = false) ∧
+    (∀ p ∈ s.parkedRecv, ∃ x ∈ s.ctxs, x.id = p.ctx ∧ x.closed = false ∧ x.receiveWait = true) :=
+  ⟨fun p hp => (Req.reach_K s hs).slive p hp (by simp), fun p hp => (Req.reach_K s hs).rlive p hp (by simp)⟩
+
+example : Req.Reach Req.init ∧ Req.init.closed = false := ⟨.init, rfl⟩
 
 end Props.C10
